@@ -1,6 +1,7 @@
 import XlModel.Styles
 import XlModel.Lemmas.Styles
 import XlModel.Lemmas.StylesGrid
+import XlModel.Lemmas.StylesIdem
 /-!
 # Property C17 — style registry is stable and deduplicating; styles resolve cell > row > column
 
@@ -27,10 +28,10 @@ def runNew (r : Reg) : List Style → Reg
 
 /-! ## the invariant -/
 
-/-- the style sheet of `NewFile()` (regenerated from templates.go) satisfies the invariant:
-`Count` fields equal the lengths, xf 0 refers to existing components -/
+/-- the style sheet of `NewFile()` (regenerated from templates.go) satisfies the invariant: tables
+non-empty, xf 0 refers to existing components -/
 theorem wf_init : WF initReg := by
-  refine ⟨by decide, by decide, by decide, by decide, ?_, by decide, by decide, by decide, ?_, by decide, ?_⟩
+  refine ⟨?_, by decide, by decide, by decide, ?_, by decide, ?_⟩
   · intro l c h; simp [initReg] at h
   · intro nf h; simp [numFmtList, initReg] at h
   · intro xf h
@@ -38,16 +39,30 @@ theorem wf_init : WF initReg := by
     subst h
     refine ⟨fun i hi => ?_, fun i hi => ?_, fun i hi => ?_, fun n hn => ?_⟩ <;> simp at * <;> subst_vars <;> decide
 
+/-- … and its `count` attributes equal the element counts -/
+theorem counts_init : CountsOk initReg :=
+  ⟨by decide, by decide, by decide, by decide, fun l c h => by simp [initReg] at h⟩
+
 /-- **counts_track_lengths** (anchor "Count fields must track slice lengths"): every successful
-`NewStyle` keeps the invariant — all five `Count` fields equal the table lengths, every xf refers
-to existing table entries — and the id it returns is a valid index (`GetStyle` of it succeeds) -/
-theorem counts_track_lengths {r r' : Reg} {s s' : Style} {id : Nat} (w : WF r)
+`NewStyle` keeps the structural invariant, keeps all five `Count` fields equal to the table lengths
+when they were, and returns a valid index (`GetStyle` of it succeeds) -/
+theorem counts_track_lengths {r r' : Reg} {s s' : Style} {id : Nat} (w : WF r) (c : CountsOk r)
     (h : newStyle r s = .ok (r', id, s')) :
-    WF r' ∧ r'.fontsCount = r'.fonts.length ∧ r'.fillsCount = r'.fills.length ∧
-    r'.bordersCount = r'.borders.length ∧ r'.xfsCount = r'.xfs.length ∧
-    (∀ l c, r'.numFmts = some (l, c) → c = l.length) ∧ id < r'.xfs.length := by
+    WF r' ∧ CountsOk r' ∧ id < r'.xfs.length := by
   obtain ⟨_, w', hid⟩ := newStyle_spec w h
-  exact ⟨w', w'.fontsCount, w'.fillsCount, w'.bordersCount, w'.xfsCount, fun l c hl => (w'.numCount l c hl).1, hid⟩
+  exact ⟨w', c.step (newStyle_cstep h), hid⟩
+
+/-- **counts_repaired** (style sheets opened from files whose `count` attributes differ from the
+element counts): whatever the `Count` fields were, a table `NewStyle` appends to gets
+`Count = len`, and a table it does not touch keeps its `Count`; the ids handed out are positions in
+the lists, so `ids_stable`, `newstyle_idempotent`, … (which assume `WF` only) hold for such sheets -/
+theorem counts_repaired {r r' : Reg} {s s' : Style} {id : Nat} (h : newStyle r s = .ok (r', id, s')) :
+    ((r'.fonts = r.fonts ∧ r'.fontsCount = r.fontsCount) ∨ r'.fontsCount = r'.fonts.length) ∧
+    ((r'.fills = r.fills ∧ r'.fillsCount = r.fillsCount) ∨ r'.fillsCount = r'.fills.length) ∧
+    ((r'.borders = r.borders ∧ r'.bordersCount = r.bordersCount) ∨ r'.bordersCount = r'.borders.length) ∧
+    ((r'.xfs = r.xfs ∧ r'.xfsCount = r.xfsCount) ∨ r'.xfsCount = r'.xfs.length) :=
+  let c := newStyle_cstep h
+  ⟨c.fonts, c.fills, c.borders, c.xfs⟩
 
 /-- the invariant holds after every history -/
 theorem wf_history {r : Reg} (w : WF r) (ss : List Style) : WF (runNew r ss) := by
@@ -293,6 +308,68 @@ theorem gradient_3stop_reregisters :
 theorem finding_rereg_empty_fill :
     reregFill { zs with fill := ⟨"pattern".toList, 19, ["112233".toList], 0⟩ } =
       .ok (Fill.zero, ⟨"pattern".toList, 0, [], 0⟩) := by
+  decide +kernel
+
+/-! ## idempotence for regular definitions -/
+
+theorem parse_ok {s p : Style} (h : parseFormatStyleSet s = .ok p) : p = s := by
+  unfold parseFormatStyleSet at h
+  repeat' split at h
+  all_goals first
+    | (simp at h; done)
+    | (injection h with h; exact h.symm)
+
+/-- **newstyle_idempotent** ("returns the same id when the same definition is registered again"):
+for every registry satisfying the invariant and every definition outside the classes that are open
+findings (`Regular`: no NegRed / DecimalPlaces ≠ 2 on a stored number format, no currency format
+whose code is already in numFmts, no fill of unknown type), registering the definition a second
+time returns the SAME id and leaves EVERY table unchanged — whether the first call found the
+definition or created it (components looked up or appended, ids taken from the `Count` fields) -/
+theorem newstyle_idempotent {r r1 : Reg} {s s1 : Style} {id : Nat} (w : WF r)
+    (reg : Regular r (clampDecimal s) = true) (h : newStyle r s = .ok (r1, id, s1)) :
+    ∃ s2, newStyle r1 s = .ok (r1, id, s2) := by
+  unfold newStyle at h
+  cases hp : parseFormatStyleSet s with
+  | error e => rw [hp] at h; simp at h
+  | ok p =>
+    have hps := parse_ok hp
+    subst hps
+    rw [hp] at h
+    simp only at h
+    cases hg : getStyleID r (clampDecimal p) with
+    | error e => rw [hg] at h; simp at h
+    | ok q =>
+      obtain ⟨found, s3⟩ := q
+      rw [hg] at h
+      cases found with
+      | some id0 =>
+        simp only at h
+        injection h with h; injection h with h1 h2; injection h2 with h2 h3
+        subst h1; subst h2; subst h3
+        exact ⟨s3, by unfold newStyle; rw [hp]; simp only; rw [hg]⟩
+      | none =>
+        simp only at h
+        obtain ⟨t'', hf, _⟩ := found_after_create w reg hg h
+        exact ⟨t'', by unfold newStyle; rw [hp]; simp only; rw [hf]⟩
+
+/-- … and on every further repetition (the second call is a "found" call) -/
+theorem newstyle_idempotent_forever {r r1 : Reg} {s s1 : Style} {id : Nat} (w : WF r)
+    (reg : Regular r (clampDecimal s) = true) (h : newStyle r s = .ok (r1, id, s1)) (n : Nat) :
+    (Nat.repeat (fun x => match newStyle x s with | .ok (x', _, _) => x' | .error _ => x) n r1) = r1 := by
+  obtain ⟨s2, h2⟩ := newstyle_idempotent w reg h
+  induction n with
+  | zero => rfl
+  | succ k ih => simp only [Nat.repeat, ih, h2]
+
+/-- the hypothesis is decidable and satisfiable (the definition of `idem_example`), and each part of
+it is needed: the `finding_idem_*` witnesses are exactly the definitions it excludes -/
+theorem regular_examples :
+    Regular initReg { zs with font := some boldFont, fill := ⟨"pattern".toList, 1, ["ff0000".toList], 0⟩,
+                              border := [⟨"left".toList, "00ff00".toList, 1⟩], protection := some (true, false),
+                              numFmt := 4 } = true ∧
+    Regular initReg { zs with numFmt := 165, decimalPlaces := some 3, negRed := true } = false ∧
+    Regular initReg { zs with fill := ⟨['x'], 1, [], 0⟩ } = false ∧
+    Regular initReg { zs with numFmt := 165 } = true := by
   decide +kernel
 
 /-! ### non-vacuity and the positive cases -/
